@@ -26,6 +26,8 @@ CONSTANTS MaxPkt0,      \* max packet size of the control endpoint
           InEps,        \* numbers of the other IN endpoints of the device
           OutEps,       \* numbers of the other OUT endpoints
           Unit,         \* TRUE: the DUT is a bare USBSetupDecoder (only SETUP transactions are answered)
+          Skipped,      \* configuration: standard bRequest numbers the standard handler is told to leave alone (skiplist)
+          Claimed,      \* configuration: 256 * type + bRequest of the requests an additional, custom handler claims
           Clean         \* TRUE: the Env avoids the triggers of all open known findings
 
 VARIABLES addr,   \* device address
@@ -81,7 +83,9 @@ Canonical(s) ==
 (* non-canonical form - its treatment is not fixed by the properties: the SETUP transaction itself   *)
 (* is checked (C06), but the Env does not continue such a transfer (no IN/OUT on ep0 until the next  *)
 (* SETUP).                                                                                           *)
-ClassOf(s) == IF s.type # 0 THEN "unsup"
+ClassOf(s) == IF 256 * s.type + s.req \in Claimed THEN "gray"        \* someone else's business: only its SETUP is followed
+              ELSE IF s.type # 0 THEN "unsup"
+              ELSE IF s.req \in Skipped THEN "unsup"                 \* nobody claims it -> must be STALLed
               ELSE IF s.req \notin Implemented THEN "unsup"
               ELSE IF ~Canonical(s) THEN "gray"
               ELSE IF s.req = 1 /\ ~(s.rcpt = 2 /\ s.val = 0) THEN "unsup"      \* only ENDPOINT_HALT on an endpoint
@@ -192,7 +196,8 @@ Judge(a, r) ==
 (* Ref update, chosen by the observed response *)
 XferAfter(a, r) ==
     LET k == Kind(a) IN
-    CASE k = "reset" -> [NoXfer EXCEPT !.st = "reset"]           \* default state: nothing in progress
+    CASE k = "dreset" -> NoXfer                                   \* clock-domain reset: everything as at power-on
+      [] k = "reset" -> [NoXfer EXCEPT !.st = "reset"]           \* default state: nothing in progress
       [] k = "setup_tok" -> [xf EXCEPT !.st = "broken"]          \* the old transfer is over, whatever follows
       [] k = "setup_data" -> IF ValidSetupData(a) THEN NewXfer(a.bytes) ELSE xf
       [] k = "in0" ->
@@ -218,9 +223,9 @@ XferAfter(a, r) ==
 
 (* C08: the only ways the address / configuration change. *)
 Commits(a) == Kind(a) = "ack" /\ ctx.ep = 0 /\ xf.st = "sin" /\ xf.cls = "sup"
-AddrAfter(a) == IF Kind(a) = "reset" THEN 0
+AddrAfter(a) == IF Kind(a) \in {"reset", "dreset"} THEN 0
                 ELSE IF Commits(a) /\ xf.req = 5 THEN xf.val % 128 ELSE addr
-CfgAfter(a)  == IF Kind(a) = "reset" THEN 0
+CfgAfter(a)  == IF Kind(a) \in {"reset", "dreset"} THEN 0
                 ELSE IF Commits(a) /\ xf.req = 9 THEN xf.val % 256 ELSE cfg
 
 CtxAfter(a, r) ==
@@ -272,7 +277,8 @@ ArmedAfter(a) ==
 (* so does a foreign-address ACK while that endpoint's own packet is outstanding (finding family C17).     *)
 TglAfter(a, r) ==
     LET k == Kind(a) IN
-    IF k = "reset" \/ (Commits(a) /\ xf.req = 9) THEN [e \in InEps |-> 2]
+    IF k = "dreset" THEN [e \in InEps |-> 2]       \* (the stream source outside the DUT keeps running: next packet unknown)
+    ELSE IF k = "reset" \/ (Commits(a) /\ xf.req = 9) THEN [e \in InEps |-> 2]
     ELSE IF Commits(a) /\ xf.req = 1 THEN [e \in InEps |-> IF xf.idx = 128 + e THEN 2 ELSE tgl[e]]
     ELSE IF k = "in_ep" /\ IsData(r) THEN [tgl EXCEPT ![a.ep] = TogOf(r)]
     ELSE IF k = "ack" /\ ctx.ep \in InEps THEN [tgl EXCEPT ![ctx.ep] = IF tgl[ctx.ep] = 2 THEN 2 ELSE 1 - tgl[ctx.ep]]
@@ -282,7 +288,7 @@ PendAfter(a, r) ==
     LET k == Kind(a) IN
     IF k \in {"in0", "in_ep"} /\ IsData(r) THEN a.ep
     ELSE IF a.a = "tok" /\ Me(a) THEN NoEp
-    ELSE IF k \in {"ack", "reset"} THEN NoEp
+    ELSE IF k \in {"ack", "reset", "dreset"} THEN NoEp
     ELSE pend
 LastOutAfter(a) ==
     IF a.a # "tok" \/ ~a.ok THEN lastOut
